@@ -1331,7 +1331,8 @@ class Wtp:
                         # Template transclusion or parser function call.
                         # Expand its arguments.
                         new_args = tuple(
-                            expand_args(x, argmap) for x in args
+                            expand_args(x, argmap).removesuffix("\n")
+                            for x in args
                         )
                         parts.append(self._save_value(kind, new_args, nowiki))
                         continue
@@ -1357,7 +1358,7 @@ class Wtp:
                             k = re.sub(r"\s+", " ", k).strip()
                         v = argmap.get(k, None)
                         if v is not None:
-                            parts.append(v)
+                            parts.append(v.removesuffix("\n"))
                             continue
                         if len(args) >= 2:
                             self.expand_stack.append("ARG-DEFVAL")
